@@ -83,6 +83,8 @@ type Out struct {
 	PropsOn  map[string]string `json:"propson,omitempty"`
 	PropsOff map[string]string `json:"propsoff,omitempty"`
 	PropsErr string            `json:"propserr,omitempty"`
+	MBytes   map[string]Res    `json:"mbytes,omitempty"`   // mapping.Unmarshal{Json,Yaml,Toml}Bytes
+	MReaders map[string]Res    `json:"mreaders,omitempty"` // mapping.Unmarshal{Json,Yaml,Toml}Reader
 	Map      *Res              `json:"mapping,omitempty"`
 	Std      *Res              `json:"stdjson,omitempty"`
 }
@@ -416,6 +418,17 @@ func runCase(c Case, dir string) (out Out) {
 		m := run(rt, func(t any) error { return mapping.UnmarshalJsonBytes(raw, t) })
 		s := run(rt, func(t any) error { return json.Unmarshal(raw, t) })
 		out.Map, out.Std = &m, &s
+	case "mfmt": // mapping's own format front ends (no conf layer: keys are matched exactly)
+		out.MBytes = map[string]Res{
+			"json": run(rt, func(t any) error { return mapping.UnmarshalJsonBytes([]byte(texts["json"]), t) }),
+			"yaml": run(rt, func(t any) error { return mapping.UnmarshalYamlBytes([]byte(texts["yaml"]), t) }),
+			"toml": run(rt, func(t any) error { return mapping.UnmarshalTomlBytes([]byte(texts["toml"]), t) }),
+		}
+		out.MReaders = map[string]Res{
+			"json": run(rt, func(t any) error { return mapping.UnmarshalJsonReader(strings.NewReader(texts["json"]), t) }),
+			"yaml": run(rt, func(t any) error { return mapping.UnmarshalYamlReader(strings.NewReader(texts["yaml"]), t) }),
+			"toml": run(rt, func(t any) error { return mapping.UnmarshalTomlReader(strings.NewReader(texts["toml"]), t) }),
+		}
 	case "shape":
 		if c.NoLoad {
 			return
